@@ -159,7 +159,7 @@ def _cap_scenario(sid, func_cls_mod, cls, level, name, pre, spec_fn, pinned_fn=N
             return node.get_regex
         rp = {"kind": "capture", "cls": cls, "name": name, "level": level}
         return node_obligations(func, sid, props, level, build, spec_fn, levels, replay=rp, shapes=["one"],
-                                pinned=pinned_fn, unit=unit and level != G.DEREF)
+                                pinned=pinned_fn, unit=unit and level != G.DEREF, ncaps=1 if "Reference" in cls else 0)
     scenario(sid, func, props, doc=f"{cls} ({name}) at {level} level")(run)
 
 
@@ -209,7 +209,7 @@ def _reg_scenarios():
                     # documented deviating behaviour: width suffix ignored, optional terminator
                     return "%?[re]?" + code_slice + ",?"
                 _cap_scenario(f"cap:reg:ref:{name}:{level}", "cg_reg", "PatternNodeCaptureGroupSpecialRegisterReference", level,
-                              name, [], spec_ref, pinned_ref, unit=False)
+                              name, [], spec_ref, pinned_ref, unit=False, props=["C05", "C07"])
                 if suf is None:
                     continue
 
@@ -220,7 +220,7 @@ def _reg_scenarios():
                     return "%?" + table[suf].format(bref(1) + ",?") + ",?"
                 _cap_scenario(f"cap:reg:call:{name}:{level}", "cg_reg", "PatternNodeCaptureGroupRegisterCall", level,
                               name, [f"&{fam}"], spec_call, pinned_call, bref_level=G.DEREF if level == G.DEREF else G.FIELD,
-                              unit=False)
+                              unit=False, props=["C05", "C07"])
 
 
 _reg_scenarios()
